@@ -59,6 +59,70 @@ def oracle_T(n, T, pieces):
     return pos == n and all(0 <= t < T for (t, _, _) in pieces)
 
 
+# ------------------------------------------------------------------ histories of loops
+PROPAGATING = ("tbb", "debug")     # backends on which an exception may leave a loop body (defined behaviour)
+
+
+def oracle_H(steps, backend):
+    """required result of every step of a history, each judged from the step alone (Properties.history_independent)"""
+    prop = backend in PROPAGATING
+    out = []
+    for k, st in enumerate(steps):
+        f = st.split(":")
+        r = "ok"
+        if f[0] == "x":
+            n = max(0, clip(f[1], int(f[2])))
+            if prop and 0 <= int(f[3]) < n: r = "caught"
+        elif f[0] == "xe":
+            if prop and 0 <= int(f[2]) < int(f[1]): r = "caught"
+        elif f[0] == "xb":
+            n, B = int(f[1]), int(f[2]); nb = (n + B - 1) // B if n > 0 else 0
+            if prop and 0 <= int(f[3]) < nb: r = "caught"
+        out.append("%d=%s" % (k, r))
+    return " ".join(out)
+
+
+def gen_history(r, backend, T):
+    prop = backend in PROPAGATING
+    tys = ["i", "sz", "uc", "l"]
+
+    def ordinary():
+        c = r.random()
+        if c < 0.55:
+            ty = r.choice(tys); n = clip(ty, r.choice([0, 1, 2, T + 1, 255, 257, 1000, 4095]))
+            return "f:%s:%d" % (ty, n)
+        if c < 0.75: return "e:%d" % r.choice([0, 1, 257, 3000])
+        if c < 0.9: return "b:%d:%d" % (r.choice([0, 1, 5, 300, 4095]), r.choice([4, 64]))
+        return "n:%d:%d:%d:%d" % (r.choice([1, 3, T + 1]), r.choice([1, 50, 300]), -1, -1)
+
+    def failing():
+        c = r.random()
+        if c < 0.5:
+            ty = r.choice(tys); n = clip(ty, r.choice([1, 2, T + 1, 255, 1000, 4095]))
+            bad = r.choice([0, n - 1, r.randint(0, max(0, n - 1)), n])
+            return "%s:%s:%d:%d" % ("x" if prop else "s", ty, n, bad)
+        if c < 0.7:
+            n0, n1 = r.choice([1, 3, T + 1]), r.choice([1, 50, 300])
+            return "n:%d:%d:%d:%d" % (n0, n1, r.randint(0, n0 - 1), r.randint(0, n1 - 1))
+        if c < 0.85:
+            cnt = r.choice([1, 257, 3000]); return "xe:%d:%d" % (cnt, r.randint(0, cnt - 1))
+        n, B = r.choice([5, 300, 4095]), r.choice([4, 64])
+        return "xb:%d:%d:%d" % (n, B, r.randint(0, (n + B - 1) // B - 1))
+    steps = [ordinary() for _ in range(r.randint(0, 2))]
+    for _ in range(r.randint(1, 3)):
+        steps.append(failing())
+        steps += [ordinary() for _ in range(r.randint(2, 4))]
+    return steps
+
+
+def run_history(ctx, exe, T, steps, wd):
+    rc, out, err = ctx.run_exe(exe, [str(T), str(wd)], stdin="H h " + " ".join(steps) + "\n", timeout=300)
+    for ln in out.splitlines():
+        if ln.startswith("h "):
+            return ln[2:]
+    return "no-result rc=%s %s" % (rc, (out + err)[-200:].replace("\n", " "))
+
+
 # ------------------------------------------------------------------ case grid
 def gen_cases(ctx, backend, T):
     r = ctx.rng("cases/%s/%d" % (backend, T))
@@ -118,6 +182,11 @@ def gen_cases(ctx, backend, T):
             # row 2: count above INT_MAX on the internal backend (cheap to run: the truncated count is small)
             for ty, n in [("sz", 2**32 + 5), ("ull", 2**32 + 5), ("l", 2**32 + 5), ("ll", 2**33 + 7), ("l", -2**32 + 5)]:
                 cases.append(("F", dict(type=ty, n=n, cost=0, depth=0), "%s %d 0 0" % (ty, n)))
+    # histories last: loops whose bodies fail, followed by ordinary loops that must be complete (a failure that
+    # poisons the process would otherwise show up in every later case of this group)
+    for _ in range(ctx.pick(5, 30)):
+        steps = gen_history(r, backend, T)
+        cases.append(("H", dict(steps=steps), " ".join(steps)))
     return cases
 
 
@@ -371,6 +440,26 @@ def run(ctx):
             elif c[0] == "M":
                 req = "cnt=%d ok" % spec["distance"]
                 ctx.nontriv(["M", b, T, spec])
+            elif c[0] == "H":
+                req = oracle_H(spec["steps"], b)
+                if "caught" in req or any(st[0] in "sn" for st in spec["steps"]):
+                    ctx.nontriv(["H", b, T, spec])
+                for st in spec["steps"]:
+                    hist["Hstep:" + st.split(":")[0]] = hist.get("Hstep:" + st.split(":")[0], 0) + 1
+                if obs_cmp != req and ("H", b) not in viol:
+                    # shrink to a minimal failing history, each candidate in a fresh process
+                    def fails(steps, b=b, T=T):
+                        return bool(steps) and run_history(ctx, exe[b], T, steps, wd) != oracle_H(steps, b)
+                    small = vlib.shrink_list(spec["steps"], fails, max_rounds=60)
+                    if fails(small):
+                        o2 = run_history(ctx, exe[b], T, small, wd)
+                        viol[("H", b)] = (len(small), "%s backend, initTaskingSystem(%d): history of loops %s: observed '%s', required '%s' "
+                                          "(step forms: f ordinary parallel_for, x body throws and the caller catches, s body handles its own failure, "
+                                          "n nested with a failing inner loop, e/xe parallel_foreach, b/xb parallel_in_blocks_of)"
+                                          % (b, T, " ; ".join(small), o2[:300], oracle_H(small, b)),
+                                          {"backend": b, "T": T, "kind": "H", "history": small, "harness_line": "H x " + " ".join(small),
+                                           "observed": o2, "required": oracle_H(small, b), "original_history": spec["steps"]}, None)
+                    continue
             else:
                 pp = parse_pieces(obs)
                 ok = pp is not None and pp[1] == spec["n"] and oracle_T(pp[1], pp[0], pp[2])
@@ -387,6 +476,8 @@ def run(ctx):
                 sig = None
                 if c[0] == "F" and b == "internal" and (spec["n"] > INT_MAX or spec["n"] < -2**31):
                     sig = SIG_GT_INT_MAX
+                if c[0] == "H" and ("H", b) in viol:
+                    continue
                 add_violation((b, c[0], "oracle", sig), abs(spec.get("n", spec.get("count", spec.get("distance", 0)))) + T,
                               "%s backend, initTaskingSystem(%d): %s %s: observed '%s', required '%s'" % (b, T, c[0], spec, obs[:300], req[:300]),
                               {"backend": b, "T": T, "kind": c[0], "case": spec, "harness_line": "%s x %s" % (c[0], c[2]),
